@@ -80,6 +80,19 @@ Definition req_vtt_write (arg : sx) : sx :=
   | None => bad
   end.
 
+(* 806 (wave 7): [chain, captions (start, end, text lines)] -> the document-level chain of the model (run_doc: every hop
+   prints the document and reads it back with the string-level reader model; DFXP included) *)
+Definition of_tcue (c : Z * Z * list str) : sx := SL [SI (fst (fst c)); SI (snd (fst c)); of_list SS (snd c)].
+Definition req_run_doc (arg : sx) : sx :=
+  match arg with
+  | SL [ch; cs] =>
+      match sx_listof sx_fmt ch, sx_listof sx_tcue cs with
+      | Some ch, Some cs => of_result (of_list of_tcue) (run_doc ch cs)
+      | _, _ => bad
+      end
+  | _ => bad
+  end.
+
 Definition dispatch (code : Z) (arg : sx) : option sx :=
   match code with
   | 800 => Some (req_trace arg)
@@ -88,5 +101,6 @@ Definition dispatch (code : Z) (arg : sx) : option sx :=
   | 803 => Some (req_mdvd_write arg)
   | 804 => Some (req_srt_write arg)
   | 805 => Some (req_vtt_write arg)
+  | 806 => Some (req_run_doc arg)
   | _ => None
   end.
